@@ -119,6 +119,13 @@ func run(id string, info propInfo, tier string, seed uint64, replay string) int 
 		return 2
 	}
 	defer os.RemoveAll(scratch)
+	coverDir := ""
+	if id == "C01" && tier == "thorough" && replay == "" {
+		coverDir = filepath.Join(scratch, "cover")
+		_ = os.MkdirAll(coverDir, 0o755)
+		os.Setenv("VERIF_COVER", "1")
+		os.Setenv("VERIF_COVERDIR", coverDir)
+	}
 	tools, err := pipeline.BuildTools(repo, filepath.Join(scratch, "tools"))
 	if err != nil {
 		fmt.Fprintln(os.Stderr, err)
@@ -359,6 +366,18 @@ func run(id string, info propInfo, tier string, seed uint64, replay string) int 
 		fmt.Println(violMsg)
 		fmt.Printf("VIOLATION property=%s replay=%s\n", id, violReplay)
 	}
+	if coverDir != "" {
+		if keep := os.Getenv("VERIF_KEEP_COVER"); keep != "" {
+			_ = exec.Command("cp", "-r", coverDir, keep).Run()
+		}
+		c := exec.Command("go", "tool", "covdata", "percent", "-i="+coverDir)
+		c.Env = pipeline.GoEnv()
+		if out, err := c.Output(); err == nil {
+			coverageNote = strings.TrimSpace(string(out))
+		} else {
+			coverageNote = "covdata failed: " + err.Error()
+		}
+	}
 	writeEvidence(id, tier, seed, info, shards, time.Since(start), violations, tools, repo, exclude)
 	if code == 0 {
 		fmt.Printf("property %s held on everything explored (%s tier, seed %d)\n", id, tier, seed)
@@ -450,6 +469,9 @@ func (f *findings) For(id string) []finding {
 	return out
 }
 
+// coverageNote holds the output of `go tool covdata percent` for thorough C01 runs (engine cov).
+var coverageNote string
+
 func writeEvidence(id, tier string, seed uint64, info propInfo, shards []*props.Shard, wall time.Duration, violations int, tools *pipeline.Tools, repo string, exclude []string) {
 	evals, inner := 0, 0
 	distinct := map[uint64]bool{}
@@ -493,6 +515,9 @@ func writeEvidence(id, tier string, seed uint64, info propInfo, shards []*props.
 		"plugin_sha256":             tools.PluginSHA,
 		"repo_head":                 head,
 		"repo_dirty":                dirty,
+	}
+	if coverageNote != "" {
+		cov["plugin_statement_coverage"] = coverageNote
 	}
 	ev := map[string]interface{}{
 		"property_id": id,
